@@ -246,12 +246,15 @@ def representations(dtype, shape, pats, root, tier):
     if tp2 is not None:
         yield f"TensorProtoTensor[{typed_field(dtype)}]", serde.TensorProtoTensor(tp2)
     # external, at several offsets; data followed by trailing bytes or exactly at end of file
-    for off, tail, with_len in ((0, 0, True), (1, 5, True), (4097, 3, False), (3, 0, False), (0, 7, False)):
-        fn = os.path.join(root, f"ext_{off}_{tail}.bin")
+    for off, tail, with_len in ((0, 0, True), (1, 5, True), (4097, 3, False), (3, 0, False), (0, 7, False), (2, 6, "longer"), (0, 9, "longer")):
+        fn = os.path.join(root, f"ext_{off}_{tail}_{with_len}.bin")
         with open(fn, "wb") as f:
             f.write(b"\xEE" * off + data + b"\xDD" * tail)
-        yield (f"ExternalTensor[offset={off},tail={tail},length={'set' if with_len else 'None'}]",
-               ir.ExternalTensor(os.path.basename(fn), off, len(data) if with_len else None, dtype, shape=ir.Shape(shape), name="t", base_dir=root))
+        # "longer": the recorded length covers padding after the data (still inside the file): the tensor is the
+        # first nbytes of the region
+        length = len(data) if with_len is True else (len(data) + tail - 1 if with_len == "longer" else None)
+        yield (f"ExternalTensor[offset={off},tail={tail},length={'set' if with_len is True else with_len or 'None'}]",
+               ir.ExternalTensor(os.path.basename(fn), off, length, dtype, shape=ir.Shape(shape), name="t", base_dir=root))
     for cache in (False, True):
         yield f"LazyTensor[cache={cache}]", ir.LazyTensor(lambda: ir.Tensor(arr.copy(), dtype=dtype, name="t"), dtype=dtype, shape=ir.Shape(shape), cache=cache, name="t")
     yield "ir.tensor(ndarray)", ir.tensor(arr.copy(), dtype=dtype, name="t")
